@@ -579,7 +579,11 @@ func c10Bolt(c *core.Ctx, part int) {
 		return
 	}
 	defer emptyEnv.close()
-	sentences := c10SentencesFor(c10BoltLhs)
+	// one more top-level symbol whose type is only known per row (any-type) on both stores
+	for _, e := range []*qEnv{env, emptyEnv} {
+		e.sc.St(qx.Things).Store.AddSymbolWithKey("anything", ast.NodeTypeAnyType, "ism")
+	}
+	sentences := c10SentencesFor(append(append([]string{}, c10BoltLhs...), "anything", "anyOf(anything)"))
 	sentences = append(sentences, c10Nested("friends", c10SentencesFor(c10BoltOthersLhs), 1)...)
 	sentences = append(sentences, c10Nested2("friends", "things", c10SentencesFor(c10BoltLhs[:22]), 5)...)
 	try := func(e *qEnv, q string, counter string) {
@@ -605,7 +609,7 @@ func c10Bolt(c *core.Ctx, part int) {
 	}
 	for i := part; i < len(sentences); i += c10BoltCases {
 		for si, suf := range []string{"", " sort by s desc, ism", " sort by tags", " sort by owner.name", " skip 1 limit 2", " sort by flt skip -1 limit none",
-			" sort by s.len", " sort by tags.x desc", " sort by s skip 100", " sort by ism desc skip 13 limit 1", " sort by flt skip 1", " skip 100", " sort by id desc skip 50 limit 2", " sort by t limit 0"} {
+			" sort by anything", " sort by s, anything desc", " sort by meta.k", " sort by s, meta.a.b desc", " sort by meta", " sort by s.len", " sort by tags.x desc", " sort by s skip 100", " sort by ism desc skip 13 limit 1", " sort by flt skip 1", " skip 100", " sort by id desc skip 50 limit 2", " sort by t limit 0"} {
 			if si > 0 && (i+si)%3 != 0 {
 				continue
 			}
